@@ -1472,7 +1472,7 @@ def nlp_signature_compare(bA_ocp, bB, rng, what):
 @register
 class C13(Check):
     pid = "C13"
-    slices = ["operation-histories", "declared-lists-untouched"]
+    slices = ["operation-histories", "declared-lists-untouched", "stage-tree-histories"]
     uses_generated = True
     OPS = ['set_value', 'set_initial', 'subject_to', 'clear_constraints', 'add_objective', 'method', 'solver', 'set_T', 'set_t0', 'sample', 'value', 'solve']
 
@@ -1488,6 +1488,11 @@ class C13(Check):
         return 0, 0, []
 
     def correspondence(self):
+        self.single_stage_histories()
+        from .props2 import tree_history_slice
+        tree_history_slice(self, "stage-tree-histories")
+
+    def single_stage_histories(self):
         import casadi as ca
         n = 150 if self.tier == 'quick' else 1500
         maxops = 9 if self.tier == 'quick' else 25
